@@ -1,8 +1,13 @@
 """C06 — a rejected edit leaves every IR object exactly as it was (DESIGN.md 5/C06).
 
-Theorem: in the kernel model a step that raises returns the world it was given.  Correspondence: shared
-with C01 (`kernel.run`; the driver also reports structural equality of the world across a raising step).
-Oracle: `kernel_ops.deep_snapshot` of all objects before vs after every raising call on the real code.
+Theorems (lean/IrVerif/Props/C06.lean): in the kernel model a single call that raises returns the world it
+was given (`C06_atomic`, equality of the whole world: every field of every object, reference counters,
+initializer keys and order, name-authority counters and sets); the same for the bulk initializer update and
+for `rename_values` with any assignment.  Correspondence: shared with C01 (`kernel.run`; the driver also
+reports structural equality of the model world across every raising step).
+Oracle: `kernel_ops.deep_snapshot` — every public accessor of every object before vs after every raising
+call on the real code.  The input distribution counts, per operation, the raising calls and the position k
+of the first rejected element of multi-element arguments (`raisedAt=<op>:k=<k>`).
 """
 from __future__ import annotations
 
@@ -17,16 +22,21 @@ THEOREMS = [
     "IrVerif.Kernel.C06_sort_cycle_no_change",
 ]
 ASSUMPTIONS = [
-    "arguments are existing objects of the right class (the model is typed)",
-    "KeyboardInterrupt / MemoryError in the middle of a call are out of scope",
-    "the name authority's private counters and name sets are part of the compared state (they decide later names)",
+    "same alphabet and typing assumption as C01",
+    "convenience.replace_all_uses_with with several pairs and convenience.replace_nodes_and_values are sequences of "
+    "public calls and are NOT atomic in the code (known findings D82, D83); the atomicity theorem does not cover "
+    "them, the model keeps their partial effects exactly like the code",
+    "KeyboardInterrupt / MemoryError in the middle of a call are out of scope; AssertionError counts as raised",
+    "the name authority's private counters and name sets are part of the compared state (they decide later names); "
+    "everything else in the oracle goes through public accessors",
 ]
 
 
 def run(ctx: Ctx) -> None:
     ctx.rule = (
-        "a case is one history; non-trivial when it contains a call other than value construction; the oracle "
-        "fires on every raising call inside it (counted per operation in input_distribution as raised=<op>)"
+        "a case is one history; non-trivial when it contains a call other than value / tensor construction; the "
+        "oracle fires on every raising call inside it (op=<call>:raised and raisedAt=<call>:k=<position> in "
+        "input_distribution)"
     )
     for obj in load_corpus(PROP):
         K.replay_ops(ctx, PROP, obj["ops"])
